@@ -109,6 +109,9 @@ def custom(run, tier):
     from framework import Finding
 
     dltype = impl.dltype
+    from checks import c02
+
+    c02.stacked(run)   # arguments are validated before the body also when another functools.wraps decorator sits underneath
     ann = dltype.FloatTensor["r c"]
     n = 0
     for lib, base in (("numpy", np.ndarray), ("torch", torch.Tensor)):
